@@ -83,6 +83,30 @@ func (g *gen) shared(withRanges bool) {
 	} else {
 		g.errs = append(g.errs, "GetMapKeys not found")
 	}
+	// options set on the JSON-LD processor in Normalize (field assignments such as options.ProcessingMode = ...)
+	optAssign := []string{}
+	if nf := g.parse("internal/validator/normalizer.go"); nf != nil {
+		if fd := g.funcDecl(nf, "Normalize"); fd != nil {
+			ast.Inspect(fd, func(x ast.Node) bool {
+				if as, ok := x.(*ast.AssignStmt); ok {
+					for i, l := range as.Lhs {
+						if _, isSel := l.(*ast.SelectorExpr); isSel && i < len(as.Rhs) {
+							optAssign = append(optAssign, g.exprString(l)+" = "+g.exprString(as.Rhs[i]))
+						}
+					}
+				}
+				if c, ok := x.(*ast.CallExpr); ok && (selName(c.Fun) == "NewJsonLdOptions" || selName(c.Fun) == "Flatten") {
+					args := []string{}
+					for _, a := range c.Args {
+						args = append(args, g.exprString(a))
+					}
+					optAssign = append(optAssign, selName(c.Fun)+"("+strings.Join(args, ", ")+")")
+				}
+				return true
+			})
+		}
+	}
+	body += "Definition normalize_options : list string := " + CoqStringList(optAssign) + ".\n"
 	g.write("SharedFacts.v", body)
 	g.facts["globals"] = globals
 
